@@ -663,6 +663,20 @@ func c15SigClass(c c15Case) string {
 }
 
 func c15ReplayFn(path string) int {
+	var rp schedx.Replay
+	if _, err := loadReplay(path, &rp); err == nil && rp.Scenario != "" {
+		for _, sc := range c15SchedScenarios("thorough") {
+			if sc.Name == rp.Scenario {
+				obs, v, err := schedx.ReplayOnce(sc, rp.Choices)
+				if err != nil {
+					fmt.Println(err)
+					return 2
+				}
+				return replayVerdict("C15", len(v) > 0, obs)
+			}
+		}
+		return 2
+	}
 	var c c15Case
 	if _, err := loadReplay(path, &c); err != nil {
 		fmt.Println(err)
